@@ -17,6 +17,7 @@ import (
 	"testing"
 
 	"seehuhn.de/go/pdf"
+	"seehuhn.de/go/pdf/graphics"
 	"seehuhn.de/go/pdf/graphics/content"
 )
 
@@ -55,6 +56,37 @@ func c15Reread(ops *content.Operators, v pdf.Version) error {
 	if err := st.CanClose(); err != nil {
 		return fmt.Errorf("re-read stream is not balanced: %w", err)
 	}
+	// independent of content.State: q/Q are balanced, and text objects, marked-content
+	// sequences and compatibility sections nest properly among themselves and are all closed
+	// (ISO 32000-2, 14.6.1: marked content shall be properly nested with text objects)
+	depthQ := 0
+	var stack []string
+	closers := map[string]string{"ET": "BT", "EMC": "BMC", "EX": "BX"}
+	for i, op := range got {
+		name := string(op.Name)
+		if name == "BDC" {
+			name = "BMC"
+		}
+		switch name {
+		case "q":
+			depthQ++
+		case "Q":
+			depthQ--
+			if depthQ < 0 {
+				return fmt.Errorf("operator %d: Q without q", i)
+			}
+		case "BT", "BMC", "BX":
+			stack = append(stack, name)
+		case "ET", "EMC", "EX":
+			if len(stack) == 0 || stack[len(stack)-1] != closers[name] {
+				return fmt.Errorf("operator %d (%s) closes %v: paired operators are not properly nested", i, op.Name, stack)
+			}
+			stack = stack[:len(stack)-1]
+		}
+	}
+	if len(stack) != 0 || depthQ != 0 {
+		return fmt.Errorf("re-read stream leaves %v and %d q open", stack, depthQ)
+	}
 	return nil
 }
 
@@ -89,7 +121,28 @@ func TestB2C15Builder(t *testing.T) {
 		}, // 16
 		func(b *Builder) { b.TextBegin(); b.TextEnd() },                                              // 17
 		func(b *Builder) { b.TextBegin(); b.PushGraphicsState(); b.PopGraphicsState(); b.TextEnd() }, // 18: q inside a text object
-		func(b *Builder) { // 19: nesting at the limit
+		func(b *Builder) { b.MarkedContentStart(&graphics.MarkedContent{Tag: "Span"}) },              // 19
+		func(b *Builder) { b.MarkedContentEnd() },                                                    // 20
+		func(b *Builder) { // 21: properly nested marked content inside a saved state
+			b.PushGraphicsState()
+			b.MarkedContentStart(&graphics.MarkedContent{Tag: "P"})
+			b.Rectangle(0, 0, 1, 1)
+			b.Fill()
+			b.MarkedContentEnd()
+			b.PopGraphicsState()
+		},
+		func(b *Builder) { // 22: cross-nested: the state is restored inside the marked content
+			b.PushGraphicsState()
+			b.MarkedContentStart(&graphics.MarkedContent{Tag: "Span"})
+			b.PopGraphicsState()
+		},
+		func(b *Builder) { // 23: cross-nested the other way round
+			b.MarkedContentStart(&graphics.MarkedContent{Tag: "Span"})
+			b.PushGraphicsState()
+			b.MarkedContentEnd()
+			b.PopGraphicsState()
+		},
+		func(b *Builder) { // 24: nesting at the limit
 			for range 28 {
 				b.PushGraphicsState()
 			}
@@ -106,7 +159,7 @@ func TestB2C15Builder(t *testing.T) {
 	for run := 0; run < runs; run++ {
 		v := []pdf.Version{pdf.V1_4, pdf.V1_7, pdf.V2_0}[run%3]
 		// mostly well-formed blocks (indices 14.. are blocks), sometimes a stray call
-		blocks := []int{14, 14, 15, 16, 17, 18, 19, 6}
+		blocks := []int{14, 14, 15, 16, 17, 18, 24, 6, 21, 21, 22, 23}
 		n := 1 + rng.Intn(6)
 		var seq []int
 		for i := 0; i < n; i++ {
@@ -136,6 +189,9 @@ func TestB2C15Builder(t *testing.T) {
 					b.Stroke()
 				case 2:
 					b.PopGraphicsState()
+				}
+				if rng.Intn(4) == 0 {
+					b.MarkedContentEnd()
 				}
 			}
 		}
